@@ -408,6 +408,8 @@ func TestC11ReorgCrash(t *testing.T) {
 	if m.Violations() <= 12 {
 		reorgNet(m, m.Rand("reorgs-lockup"), true)
 	}
-	m.Need("content:abandoned-branch-spends-qi", "content:winning-branch-spends-qi", "back-and-forth:round")
+	m.Need("content:abandoned-branch-spends-qi", "content:winning-branch-spends-qi", "content:abandoned-branch-trims-outputs", "content:winning-branch-trims-outputs",
+		"content:abandoned-branch-executes-conversion", "content:abandoned-branch-changes-lockup-records", "content:winning-branch-changes-lockup-records",
+		"back-and-forth:round", "dominant-reorg:reorg-region")
 	m.Floor(int64(m.N(200, 1500)), m.N(40, 120))
 }
